@@ -588,6 +588,12 @@ def parse_term(s: str):
     return v
 
 
+def gt(a, b):
+    """a > b, written so that a NaN on either side counts as a failure of `a <= b` (a plain `abs(x - y) > tol` is False for NaN and
+    would let a statistic that is not a number pass)"""
+    return not (a <= b)
+
+
 def close(a, b, rel=0.0, abs_=0.0):
     """|a-b| <= abs_ + rel*max(|a|,|b|) on exact Fractions / floats."""
     a = fractions.Fraction(a) if not isinstance(a, fractions.Fraction) else a
